@@ -254,11 +254,22 @@ static void product(report& r)
             std::vector<sz> const list = {7, 0, 5, 2};
             // kinds 3 and 4: mpi_vegas / mpi_multi_channel again, in the same process, with the same types but three
             // dimensions (what a call needs depends on run-time properties of the integrand)
-            for (int kind = 0; kind != 5; ++kind)
+            // kind 5: mpi_multi_channel with one random number mapped to three coordinates (map_dimensions != dimensions)
+            struct wide2
+            {
+                T operator()(sz, std::vector<T> const& rn, std::vector<T>& coords, std::vector<sz> const&, std::vector<T>& dens, hep::multi_channel_map action) const
+                {
+                    if (action == hep::multi_channel_map::calculate_coordinates) { for (sz k = 0; k != coords.size(); ++k) coords[k] = rn[0] / T(k + 1); return T(1); }
+                    for (auto& dd : dens) dd = T(1);
+                    return T(1);
+                }
+            };
+            struct wide2_fn { T operator()(hep::multi_channel_point<T> const& p) const { return T(1) + p.coordinates()[2]; } };
+            for (int kind = 0; kind != 6; ++kind)
             {
                 int const world = 3;
-                sz const dm = kind >= 3 ? 3 : 1;
-                int const base_kind = kind >= 3 ? kind - 2 : kind;
+                sz const dm = (kind == 3 || kind == 4) ? 3 : 1;
+                int const base_kind = kind == 5 ? 2 : kind >= 3 ? kind - 2 : kind;
                 std::vector<std::vector<E>> gens(world);
                 vf::mpi_env env(world);
                 vf::pl_map<T> map; map.split = {T(0.25), T(0.5), T(0.75)}; map.dims = dm;
@@ -267,6 +278,8 @@ static void product(report& r)
                     gen_recorder<E> rec{&gens[rank]};
                     if (base_kind == 0) (void) hep::mpi_plain(MPI_COMM_WORLD, hep::make_integrand<T>(pattern_fn<T>{pat}, dm), list, hep::make_plain_chkpt<T, E>(g0), rec);
                     else if (base_kind == 1) (void) hep::mpi_vegas(MPI_COMM_WORLD, hep::make_integrand<T>(pattern_fn<T>{pat}, dm), list, hep::make_vegas_chkpt<T, E>(4, T(0.75), g0), rec);
+                    else if (kind == 5) (void) hep::mpi_multi_channel(MPI_COMM_WORLD, hep::make_multi_channel_integrand<T>(wide2_fn(), 1, wide2(), 3, 2), list,
+                        hep::make_multi_channel_chkpt<T, E>(std::vector<T>{T(1), T(3)}, T(0.0078125), T(0.5), g0), rec);
                     else (void) hep::mpi_multi_channel(MPI_COMM_WORLD, hep::make_multi_channel_integrand<T>(pattern_mc_fn<T>{pattern_fn<T>{pat}, false}, dm, map, dm, 3), list,
                         hep::make_multi_channel_chkpt<T, E>(std::vector<T>{T(0), T(1), T(3)}, T(0.0078125), T(0.5), g0), rec);
                 });
